@@ -21,6 +21,10 @@ model run: the scheduling decisions the real run took (who ran when, how many by
 oracle   : the byte stream the peer sees, parsed back into packets by the real consumer, is a merge of the
            per-sender packet sequences (every packet once, contiguous, per-sender order kept); every call succeeded;
            nobody is left parked (no deadlock).  For FairLock itself: mutual exclusion and first-come-first-served.
+round 5  : TLS targets with `inject`: the real ssl.SSLObject (SSLContext.sslobject_class hook) answers chosen write() calls with
+           SSLWantReadError / SSLWantWriteError / a short count in the middle of the write backlog, packets of several chunks
+           (serializer `chunked`, mixed buffer types), several concurrent senders; oracle only.  All async targets: the packets
+           are on the wire in the order of the grants of the send lock / of the calls on the bare TLS transport (order_oracle).
 """
 from __future__ import annotations
 
@@ -73,7 +77,8 @@ RULE = (
     "(bytes accepted per write, pause after each write) x cancellations of parked senders; TLS targets additionally x "
     "reader tasks on the same transport (recv / recv_into / recv_packet / the server's receiver; started before, between, "
     "after the senders; parked or woken by peer traffic cut at arbitrary ciphertext offsets) x send_all / "
-    "send_all_from_iterable mixed; "
+    "send_all_from_iterable mixed x (round 5) scripted WANT_READ / WANT_WRITE / partial answers of SSLObject.write() at chosen "
+    "write calls with multi-chunk packets (non-trivial = an injection fired); "
     "blocking clients: x auxiliary threads polling the other thread-safe methods x check-then-send idioms x send calls "
     "at which the socket parks the sender mid-packet (lock held) or answers EAGAIN x packets sent by the peer; "
     "non-trivial = at least one sender had to park in the lock / was refused by the guard while another sender was "
@@ -337,6 +342,9 @@ def oracle(case: dict, real: list[str]) -> str | None:
     rx = [ln.split()[1] for ln in real if ln.startswith("rx ")]
     if not is_merge(rx, parts):
         return f"peer received {rx[:8]}, not a merge of the per-sender sequences {parts}"
+    why = order_oracle(case, real, out, rx)
+    if why:
+        return why
     if t in ("aclient", "sclient", "tlsclient", "tlsserver"):
         why = lock_oracle([ln for ln in real if not ln.startswith(("tls.", "tlsrecv."))], fifo=False)
         if why:
@@ -346,6 +354,34 @@ def oracle(case: dict, real: list[str]) -> str | None:
         if why:
             return "TLS send lock: " + why
         return reader_oracle(case, real)
+    return None
+
+
+def order_oracle(case: dict, real: list[str], out: dict, rx: list[str]) -> str | None:
+    """the packets appear on the wire in the order in which the senders got hold of the stream: the order of the grants of the
+    send lock (clients, server-side client), resp. the order of the calls on the bare TLS transport (the backlog is extended
+    synchronously by the call).  Not a model run: read off the trace events alone."""
+    t = case["target"]
+    if t == "endpoint" or t not in ASYNC_TARGETS or t == "fairlock":
+        return None
+    ok_packets = {f"s{i}": [h or "-" for j, h in enumerate(s["packets"]) if out.get((f"s{i}", j)) == "ok"]
+                  for i, s in enumerate(case["senders"])}
+    taken = {name: 0 for name in ok_packets}
+    exp: list[str] = []
+    for ln in real:
+        w = ln.split()
+        if t == "tls":
+            if w[0] != "send" or _tid(w[1]) is None or out.get((w[1], int(w[2]))) != "ok":
+                continue
+        elif w[0] != "acq" or _tid(w[1]) is None:
+            continue
+        name = w[1]
+        if taken[name] < len(ok_packets[name]):
+            exp.append(ok_packets[name][taken[name]])
+            taken[name] += 1
+    if len(exp) == len(rx) and exp != rx:
+        how = "the calls were made" if t == "tls" else "the send lock was granted"
+        return f"peer received {rx[:8]}: not the order in which {how} ({exp[:8]})"
     return None
 
 
@@ -571,6 +607,7 @@ def corpus() -> list[dict]:
     cases.append({"target": "endpoint", "spec": LF, "mode": "iter",
                   "senders": [{"delay": 0, "packets": ["6161", "6262"]}, {"delay": 0, "packets": ["6363"]}],
                   "script": [[1, 2], [1, 1], [1, 1]], "cancels": []})
+    cases += inject_corpus()
     return cases
 
 
@@ -643,6 +680,75 @@ def gen_async_case(rng, target: str) -> dict:
     if target not in ("endpoint", "tls") and rng.random() < 0.35:
         case["cancels"] = [[rng.randrange(n), rng.choice([0, 0, 1, 1, 2, 3, 4, 6])] for _ in range(rng.randint(1, 3))]
     return case
+
+
+def gen_inject_case(rng, target: str) -> dict:
+    """round 5: a TLS case in which the engine refuses application-data writes in the middle of the backlog (see c12_tls.Injection):
+    packets of several chunks (`chunked` serializer: 2-6 pieces + separator, buffer types mixed), 2-5 concurrent senders,
+    WANT_READ / WANT_WRITE / partial answers at PRNG-chosen write() calls — single ones, the same chunk refused several times in a
+    row, several chunks of one packet, chunks of different senders.  WANT_READ only without concurrent readers (a reader parked on
+    the lower transport holds the receive lock the sender then needs: see docs/C12.md, observations)."""
+    case = gen_async_case(rng, target)
+    n = rng.randint(1, 5)
+    spec = {"k": "chunked", "n": n, "views": "".join(rng.choice("bbamH") for _ in range(rng.randint(1, 4)))}
+    case["spec"] = spec
+    nwrites = 0
+    for i, s_ in enumerate(case["senders"]):
+        s_["packets"] = [(f"{i}.{j}." + "".join(rng.choice("abcxyz") for _ in range(rng.randint(0, 40)))).encode().hex()
+                         for j in range(len(s_["packets"]))]
+        nwrites += len(s_["packets"]) * (n + 1)
+    if target == "tls":
+        case["mode"] = rng.choice(["iter", "iter", "iter", "mixed"])
+        if case["mode"] == "mixed":
+            for s_ in case["senders"]:
+                s_["modes"] = [rng.choice(["iter", "iter", "join"]) for _ in s_["packets"]]
+    for key in ("readers", "peer_msgs"):
+        case.pop(key, None)
+    case["buffered"] = False
+    case["cancels"] = []
+    readers = target == "tlsserver" or rng.random() < 0.3
+    kinds = ["wantw", "wantw", "part"] if readers else ["wantr", "wantr", "wantw", "wantw", "part"]
+    plan: dict[int, str] = {}
+    for _ in range(rng.choice([1, 1, 2, 2, 3, 5])):
+        k = rng.randrange(nwrites + len(plan) + 1)
+        for _r in range(rng.choice([1, 1, 1, 2, 3])):         # the same chunk refused several times in a row
+            what = rng.choice(kinds)
+            plan[k] = what if what != "part" else f"part:{rng.choice([1, 1, 2, 3, 7])}"
+            k += 1
+    case["inject"] = sorted([k, v] for k, v in plan.items())
+    case["kick"] = b"k".hex()
+    if readers and target != "tlsserver":
+        case["readers"] = [{"kind": rng.choice(["recv", "recv_into"]), "first": rng.random() < 0.5, "delay": rng.choice([0, 0, 1, 2]),
+                            "pre": rng.choice([0, 1, 3]), "bufsize": rng.choice([1, 16, 65536]), "count": rng.choice([0, 0, 1]),
+                            "gap": rng.choice([0, 1])}]
+    if readers and rng.random() < 0.6:
+        case["peer_msgs"] = [{"at": rng.choice([0, 1, 2]), "pre": rng.choice([0, 1, 3]), "packets": [f"p.{m}".encode().hex()],
+                              "cuts": [rng.choice([1, 5, 22, 40]) for _ in range(rng.randint(0, 3))], "gap": rng.choice([0, 1, -1])}
+                             for m in range(rng.randint(1, 2))]
+    return case
+
+
+def inject_corpus() -> list[dict]:
+    """directed sweep: 3 senders x 2 packets of 4 chunks (+ separator) through send_all_from_iterable, the engine refusing the k-th
+    write() for EVERY k (WANT_READ, WANT_WRITE, twice in a row, partial), for the bare transport; a coarser sweep through
+    AsyncTCPNetworkClient(ssl=...) and the server-side client"""
+    out: list[dict] = []
+    spec = {"k": "chunked", "n": 4, "views": "bamH"}
+    senders = [{"delay": 0, "packets": [(f"{i}.{j}." + chr(97 + 2 * i + j) * (17 + 3 * i + j)).encode().hex() for j in range(2)]}
+               for i in range(3)]
+    nwrites = 3 * 2 * 5
+    base = {"lock": "fair", "spec": spec, "mode": "iter", "senders": senders, "cancels": [], "kick": b"k".hex(), "buffered": False}
+    for script in ([[10, 1], [10, 2], [50, -2], [20, 1]], []):
+        for k in range(nwrites + 2):
+            for plan in ([[k, "wantr"]], [[k, "wantw"]], [[k, "wantr"], [k + 1, "wantw"], [k + 2, "wantr"]], [[k, "part:3"], [k + 1, "wantw"]]):
+                if script == [] and len(plan) > 1:
+                    continue
+                out.append({**base, "target": "tls", "script": script, "inject": plan})
+    for k in range(0, nwrites + 2, 2):
+        out.append({**base, "target": "tlsclient", "script": [[7, 1], [100, 2]], "inject": [[k, "wantr"], [k + 3, "wantw"]]})
+        out.append({**base, "target": "tlsserver", "script": [[7, 1], [100, 2]], "inject": [[k, "wantw"], [k + 1, "wantw"], [k + 4, "part:2"]],
+                    "per_gen": 0, "oc_pause": 0})
+    return out
 
 
 def add_tls_traffic(rng, case: dict) -> None:
@@ -778,12 +884,18 @@ def generate(rng, tier: str, boost: int):
     for target, n in plan:
         for _ in range(n * boost):
             yield gen_async_case(rng, target)
+    # round 5: the TLS engine refuses writes (WANT_READ / WANT_WRITE / partial) in the middle of the backlog
+    irng = _random.Random(rng.getrandbits(64))
+    for target, n in [("tls", 260 if quick else 5000), ("tlsclient", 70 if quick else 1200), ("tlsserver", 70 if quick else 1200)]:
+        for _ in range(n * boost):
+            yield gen_inject_case(irng, target)
     if not quick and boost == 1:
         yield from grid_cases()
 
 
 def extra_coverage(stats) -> dict:
     return {"targets": "aclient, sclient, endpoint, fairlock, tls, tlsclient, tlsserver are replayed through the Lean model "
-            "(asyncio.Lock schedules with cancellations: oracle only); tcp/udp thread stress runs: oracle only",
+            "(asyncio.Lock schedules with cancellations: oracle only); tcp/udp thread stress runs: oracle only; TLS cases with "
+            "`inject` (engine refuses writes mid-backlog): oracle only",
             "exhaustive": "thorough tier: complete grid 3x3 start delays x 4^4 per-write pauses for 2 senders x 2 chunks "
             "(aclient with both lock kinds, bare endpoint)"}
